@@ -157,3 +157,68 @@ for _cls, _fd, _op in ((cnds.ConditionAnd, valida.data.FilteredDataAnd, operator
         witnesses=_witnesses(_cls),
         serves=["C02"],
     )
+
+
+# ------------------------------------------------------------------------------------------ with paths attached (C05)
+from pyvc.contracts import TupleOf
+from pyvc.sym import C as _C
+from spec.prims import fst, snd
+
+interface(
+    "_filter.paths",
+    param_names=[("self", None), ("data", None), ("data_has_paths", False), ("source_data", None)],
+    requires=lambda data, data_has_paths:
+        data_has_paths is True and len(data._keys) == len(data._values) and len(data._values) > 0
+        and forall_idx(len(data._values), lambda j: isinstance(data._values[j], tuple) and len(data._values[j]) == 2),
+    modifies=["data._values"],
+    returns=Obj("valida.data:FilteredData", fresh=True, result=ListOf(fresh=True), pre_processor_error=ListOf(fresh=True),
+                callable_error=ListOf(fresh=True), callable_false=ListOf(fresh=True), concrete_paths=TupleOf()),
+    result_aliases=dict(source="data"),
+    ensures=lambda self, data, source_data, result, old:
+        len(data._values) == len(old["data._values"]) and len(result.concrete_paths) == len(old["data._values"])
+        and len(result.result) == len(data._values) and len(result.pre_processor_error) == len(data._values)
+        and len(result.callable_error) == len(data._values) and len(result.callable_false) == len(data._values)
+        and forall_idx(len(data._values), lambda j: is_bool(result.result[j]) and is_bool(result.pre_processor_error[j])
+                       and is_bool(result.callable_error[j]) and is_bool(result.callable_false[j])
+                       and same(data._values[j], fst(old["data._values"][j]))
+                       and same(result.concrete_paths[j], snd(old["data._values"][j]))
+                       and same(result.result[j], SemAt(self, data, j, source_data))),
+    raises={},
+    assumed=True,
+    note="a condition's _filter on a Data object holding (value, path) pairs: the pairs are split (the Data object now holds the "
+         "values, the view the paths), verdicts are those of filtering the values; proved for leaves (Condition._filter#paths) "
+         "and, below, for combinations",
+)
+
+
+def _which_filter(args, kwargs):
+    flag = args[1] if len(args) > 1 else kwargs.get("data_has_paths")
+    return "_filter.paths" if isinstance(flag, _C) and flag.v is True else "_filter"
+
+
+for _cls, _fd, _op in ((cnds.ConditionAnd, valida.data.FilteredDataAnd, operator.and_), (cnds.ConditionOr, valida.data.FilteredDataOr, operator.or_),
+                       (cnds.ConditionXor, valida.data.FilteredDataXor, operator.xor)):
+    contract(
+        f"valida.conditions:{_cls.__name__}._filter#paths",
+        params=dict(self=Obj(_cls, children=Pair()), data=Obj("valida.data:Data", _keys=TupleOf(), _values=TupleOf(), _is_list=Const(True)),
+                    data_has_paths=Const(True), source_data=AnyVal()),
+        variants=[dict(_op=Const(_op), _fd=Const(_fd))],
+        uses_interfaces={"_filter": _which_filter},
+        modifies=["data._values"],
+        requires=lambda self, data:
+            isinstance(self.children[0], cnds.ConditionLike) and isinstance(self.children[1], cnds.ConditionLike)
+            and len(data._keys) == len(data._values) and len(data._values) > 0
+            and forall_idx(len(data._values), lambda j: isinstance(data._values[j], tuple) and len(data._values[j]) == 2),
+        ensures=lambda self, data, source_data, result, old, _op, _fd:
+            type(result) is _fd and result.source is data
+            and len(data._values) == len(old["data._values"]) and len(result.concrete_paths) == len(old["data._values"])
+            and len(result.result) == len(data._values)
+            and forall_idx(len(data._values), lambda j:
+                           same(data._values[j], fst(old["data._values"][j]))
+                           and same(result.concrete_paths[j], snd(old["data._values"][j]))
+                           and same(result.result[j], _op(SemAt(self.children[0], data, j, source_data),
+                                                          SemAt(self.children[1], data, j, source_data)))),
+        raises={},
+        serves=["C05", "C02"],
+        note="the first child splits the (value, path) pairs, the second filters the values; the combination keeps the first child's paths",
+    )
